@@ -233,7 +233,7 @@ def mkIEp (nodes : List Node) (pod : Option Pod) (addr : String) (port : String 
       sa := "spiffe://cluster.local/ns/" ++ p.ns ++ "/sa/" ++ p.sa, ns := p.ns, node := p.node,
       tls := (alookup "security.istio.io/tlsMode" pl).getD "disabled",
       locality := loc,
-      workload := (alookup "service.istio.io/workload-name" pl).getD ((alookup "@owner" pl).getD p.name),
+      workload := (alookup "service.istio.io/workload-name" pl).getD ((alookup "@owner" pl).getD p.name),  -- = workloadOf p
       labels := augment p.labels loc p.node,
       network := (alookup "topology.istio.io/network" pl).getD "",
       hostname := if (alookup "@sub" pl).getD "" ≠ "" then (match alookup "@host" pl with | some h => if h ≠ "" then h else p.name | none => p.name) else "",
@@ -452,16 +452,14 @@ def selMatch (sel podLabels : Labels) : Bool :=
   let pl := normLabels podLabels
   !sl.isEmpty && sl.all (fun kv => alookup kv.1 pl = some kv.2)
 
-/-- `recomputeServiceForPod`: services of the pod's namespace whose selector matches; stops at the
-    first one that is not in `servicesMap`. -/
+/-- `recomputeServiceForPod`: services of the pod's namespace whose selector matches; one that is not in
+    `servicesMap` (yet) is skipped (fix F3: it used to end the loop, in the unordered order of the lister). -/
 def recompute (s : Ctl) (p : Pod) : Ctl :=
   let svcs := s.svcs.filter (fun sv => sv.ns = p.ns ∧ selMatch sv.sel p.labels)
-  (svcs.foldl (fun (acc : Ctl × Bool) sv =>
-    if acc.2 then acc
-    else match alookup sv.host acc.1.smap with
-      | none => (acc.1, true)
-      | some conv => (refreshIndex (rebuildService acc.1 conv) conv, false))
-    (s, false)).1
+  svcs.foldl (fun (acc : Ctl) sv =>
+    match alookup sv.host acc.smap with
+    | none => acc
+    | some conv => refreshIndex (rebuildService acc conv) conv) s
 
 def podShouldBeIn (p : Pod) : Bool := !(p.phase = "F" ∨ p.phase = "S") && p.ip ≠ "" && !p.deleting
 
@@ -474,7 +472,9 @@ def takeWaiting (s : Ctl) (ip : String) : Ctl × List Ev :=
      keys.map Ev.replay)
 
 /-- `deleteIP` -/
-def deleteIP (s : Ctl) (ip key : String) : Ctl × Bool :=
+def deleteIP (s : Ctl) (ip0 key : String) : Ctl × Bool :=
+  -- (fix F4) the IP the pod is cached under wins over the event's
+  let ip := (alookup key s.ipBy).getD ip0
   if setContains s.byIP ip key then
     ({ s with byIP := setDelete s.byIP ip key, ipBy := aerase key s.ipBy }, true)
   else (s, false)
@@ -493,9 +493,14 @@ def addPod (s : Ctl) (p : Pod) (ip : String) (labelUpdated : Bool) : Ctl × List
   else takeWaiting (cachePod s p.key ip) ip
 
 /-- `labelFilter` (no ambient annotation in the universe): the label maps differ -/
+def filterLabels (l : Labels) : Labels :=
+  l.filter fun kv => kv.1.toList.head? ≠ some '@' || kv.1 = "@amb"
+
+/-- `labelFilter`: the label maps differ, or the one annotation it looks at (pseudo label `@amb`); the other pseudo
+    labels are pod fields it does not look at -/
 def labelsChanged (old : Option Pod) (p : Pod) : Bool :=
   match old with
-  | some o => decide (normLabels o.labels ≠ normLabels p.labels)
+  | some o => decide (normLabels (filterLabels o.labels) ≠ normLabels (filterLabels p.labels))
   | none => false
 
 inductive PodEvKind | add | upd | del
@@ -522,8 +527,14 @@ def podEvent (s : Ctl) (old : Option Pod) (p : Pod) (k : PodEvKind) : Ctl × Lis
 /-- `queueEndpointEventsForPod` (fix ab6ec60): a pod update that changes the node or the service account replays the
     EndpointSlices of the pod's namespace that have an endpoint for the pod (they took node, locality and identity
     from the pod as it was when they were handled) -/
+def workloadOf (p : Pod) : String :=
+  (alookup "service.istio.io/workload-name" (normLabels p.labels)).getD ((alookup "@owner" (normLabels p.labels)).getD p.name)
+
+/-- node, service account or workload name (controller owner reference) of the pod changed -/
+def idChanged (o p : Pod) : Bool := o.node ≠ p.node || o.sa ≠ p.sa || workloadOf o ≠ workloadOf p
+
 def idReplays (s : Ctl) (o p : Pod) : List Ev :=
-  if o.node ≠ p.node ∨ o.sa ≠ p.sa then
+  if idChanged o p then
     (s.slices.filter (fun sl => sl.ns = p.ns ∧ sl.eps.any (fun e => e.target = some (p.ns, p.name)))).map
       (fun sl => Ev.replay sl.key)
   else []
@@ -544,10 +555,14 @@ def reprocessNs (s : Ctl) (ns : String) : Ctl :=
 /-- handle one event against the current stores (`registerHandlers`: add/update handlers re-read the
     latest object and skip when it is gone); returns the replays it queued -/
 def handle (s : Ctl) : Ev → Ctl × List Ev
-  | .svcAdd v | .svcUpd _ v =>
+  | .svcAdd v =>
     match findSvc s.svcs v.ns v.name with
     | none => (s, [])
     | some cur => (serviceUpsert s (convNs s.nss cur), [])
+  -- (fix F1) an update whose object is gone already is handled with the object the event carries
+  | .svcUpd _ v =>
+    let cur := (findSvc s.svcs v.ns v.name).getD v
+    (serviceUpsert s (convNs s.nss cur), [])
   | .svcDel v => (serviceDelete s v, [])
   -- the Namespace handler (with fix 70cda90): the annotation before / after the event differs
   | .nsAdd v =>
@@ -555,27 +570,24 @@ def handle (s : Ctl) : Ev → Ctl × List Ev
     | none => (s, [])
     | some cur => (if cur.td then reprocessNs s cur.name else s, [])
   | .nsUpd o v =>
-    match s.nss.find? (fun n => n.name = v.name) with
-    | none => (s, [])
-    | some cur => (if o.td ≠ cur.td then reprocessNs s cur.name else s, [])
+    let cur := (s.nss.find? (fun n => n.name = v.name)).getD v
+    (if o.td ≠ cur.td then reprocessNs s cur.name else s, [])
   | .nsDel v => (if v.td then reprocessNs s v.name else s, [])
   | .podAdd v =>
     match findPod s.pods v.ns v.name with
     | none => (s, [])
     | some cur => podEvent s none cur .add
   | .podUpd o v =>
-    match findPod s.pods v.ns v.name with
-    | none => (s, [])
-    | some cur => ((podEvent s (some o) cur .upd).1, idReplays s o cur ++ (podEvent s (some o) cur .upd).2)
+    let cur := (findPod s.pods v.ns v.name).getD v
+    ((podEvent s (some o) cur .upd).1, idReplays s o cur ++ (podEvent s (some o) cur .upd).2)
   | .podDel v => podEvent s none v .del
   | .slAdd v =>
     match findSlice s.slices v.ns v.name with
     | none => (s, [])
     | some cur => (sliceUpsert s none cur, [])
   | .slUpd o v =>
-    match findSlice s.slices v.ns v.name with
-    | none => (s, [])
-    | some cur => (sliceEvent s o cur, [])
+    let cur := (findSlice s.slices v.ns v.name).getD v
+    (sliceEvent s o cur, [])
   | .slDel v => (sliceDelete s v, [])
   | .replay key =>
     match s.slices.find? (fun sl => sl.key = key) with
